@@ -620,6 +620,7 @@ impl World {
                             Err(chmux::ChMuxError::Protocol(m)) => format!("protocol {}", m.replace(' ', "_")),
                         };
                         tr(format!("run {} {}", side_name(side), s));
+                        tr(format!("runtime {} {}", side_name(side), crate::trace::now_ms()));
                         run_done.lock().unwrap()[side] = Some(s);
                     });
                 }
@@ -700,7 +701,7 @@ impl World {
         tr(format!("op {line}"));
         match t[0] {
             // markers for the model driver only
-            "mode" | "expect-drained" | "note" => {}
+            "mode" | "expect-drained" | "expect-alive" | "note" => {}
             "cfg" => {
                 let kv = parse_kv(&t[2..]);
                 apply_cfg(&mut self.cfgs[side_idx(t[1])], &kv);
@@ -716,6 +717,15 @@ impl World {
                 }
                 if let Some(v) = kv.get("budget") {
                     w.0.lock().unwrap().budget = parse_n(v);
+                }
+                if let (Some(at), Some(kind)) = (kv.get("faultafter"), kv.get("kind")) {
+                    let kind = match kind.as_str() {
+                        "sink" => crate::transport::FaultKind::Sink,
+                        "stream" => crate::transport::FaultKind::Stream,
+                        "eof" => crate::transport::FaultKind::Eof,
+                        _ => crate::transport::FaultKind::Stall,
+                    };
+                    w.0.lock().unwrap().fault_at = Some((parse_n(at), kind));
                 }
             }
             "window" => self.wires[side_idx(t[1])].set_window(parse_n(t[2])),
@@ -772,6 +782,7 @@ impl World {
             "advance" => {
                 tokio::time::sleep(Duration::from_millis(t[1].parse().unwrap())).await;
                 self.collect();
+                tr(format!("time {}", crate::trace::now_ms()));
                 tr(format!("settled pending={}", self.pending_list()));
             }
             "connect" => {
@@ -1128,6 +1139,7 @@ pub fn run_script(lines: &[String]) -> Vec<String> {
     let lines = lines.to_vec();
     let res = std::panic::catch_unwind(std::panic::AssertUnwindSafe(|| {
         rt.block_on(async move {
+            crate::trace::reset_clock();
             let mut w = World::new();
             for l in &lines {
                 if !w.exec(l).await {
